@@ -841,7 +841,7 @@ theorem s13_decides_when_M_wins :
        (4, 0, .quality, none)] := by
   refine ⟨by decide +kernel, by decide +kernel⟩
 
-/-! ### round `r ≥ 1`, stage by stage (node level; the network-level composition is open, see the header of
+/-! ### round `r ≥ 1`, stage by stage (node level; for the network-level composition see §RoundR below and the header of
 `F3/Proofs/RoundDecides.lean` and REPORT) -/
 
 /-- **Round `r`, CONVERGE stage** (`F3/Proofs/RoundDecides.lean`). A participant in CONVERGE of any round whose timer has
